@@ -949,7 +949,7 @@ func (ex *Exec) atReturn(f *Frame, st *State, ret *ssa.Return, res []Val) {
 			// is a violation, not a reason to skip the clause.
 			if parts := splitOp(c.Src, "==>"); len(parts) == 2 && strings.Contains(err.Error(), "unknown identifier") {
 				if a, err2 := ec.formula(parts[0]); err2 == nil {
-					ex.oblige(f, st, "ensures", fmt.Sprintf("%s#ensures#%s", ex.name, lbl), mkNot(a), ret.Pos(),
+					ex.oblige(f, st, "ensures", fmt.Sprintf("%s#ensures#%s#nolocal", ex.name, lbl), mkNot(a), ret.Pos(),
 						c.Src+"   [the consequent's values do not exist on this path: its antecedent must be false here]")
 				}
 			}
